@@ -96,6 +96,8 @@ def impl_verdicts(fmt, data, sizes, feed='bytes', forms=None):
         i, raised = G.feed_inspector(fmt, data, sizes, feed, G.clean_header(fmt) if feed != 'bytes' else None, forms)
     except G.CallFormError as e:
         return ['CALL-FORM-REJECTED: %s' % e] * 3
+    except Exception as e:
+        return ['ESCAPED:%s' % type(e).__name__] * 3
     return [proj(insp_impl.show_verdict(i, None)) for _ in range(3)]
 
 
@@ -106,6 +108,10 @@ def wrap_verdict(data, ops, u=None, expected=None):
         t = G.wrap_trace(None, data, ops, expected, 'str', u)
     except G.CallFormError as e:
         return 'CALL-FORM-REJECTED: %s' % e
+    except Exception as e:
+        return 'ESCAPED:%s' % type(e).__name__
+    if t['escaped'] or t['close_escaped']:
+        return 'ESCAPED:%s' % (t['escaped'] or t['close_escaped'])
     w = t['wrapper']
     try:
         i = w.format
@@ -236,7 +242,10 @@ def correspondence(ctx):
     try:
         for it, rep in zip(files, replies):
             ctx.evaluations += 1
-            impl = insp_impl.run_detect(it['data'], tmp)
+            try:
+                impl = insp_impl.run_detect(it['data'], tmp)
+            except Exception as e:
+                impl = 'EXC:ESCAPED-%s\texit=2' % type(e).__name__
             pi, pm = proj_detect(impl), proj_detect(rep)
             ctx.count('corr/detect/' + pi.split(' ')[0])
             ctx.count('cli-exit/' + pi.rsplit('exit=', 1)[-1])
@@ -262,6 +271,8 @@ def insp_oracle(fmt, data, sizes, expect, feed='bytes', forms=None):
                                       tuple(forms) if forms else None)
     except G.CallFormError as e:
         return str(e)
+    except Exception as e:
+        return '%s escaped while the inspector was being constructed or fed' % type(e).__name__
     outs = []
     for k in range(3):
         o = G.safety_outcome(i)
@@ -403,6 +414,8 @@ def file_verdicts(it_or_case, tmp):
             pass
         except G.CallFormError as e:
             return str(e)
+        except Exception as e:
+            return 'detect_file_format raised %s' % type(e).__name__
     cls = F.ALL_FORMATS.get(it_or_case.get('fmt'))
     if cls is not None:
         for tag in G.call_tags('FileInspector.from_file', [path]):
@@ -437,6 +450,8 @@ def wrap_oracle(it_or_case, ops, u):
     v = wrap_verdict(it_or_case['data'], ops, u)
     if v.startswith('CALL-FORM-REJECTED') or 'REPEATED QUERIES DISAGREE' in v:
         return v
+    if v.startswith('ESCAPED:'):
+        return '%s escaped from reading through InspectWrapper (no expected format: nothing may)' % v[8:]
     exp = it_or_case.get('cli', 'free')
     if exp == 'unsafe' and v.endswith('safety=ok'):
         return 'unsafe image accepted through InspectWrapper: %s' % v
